@@ -61,6 +61,10 @@ theorem itemCmds_cons_data (i : Item) (rest : List Item)
     itemCmds (i :: rest) = (i.cmd, i.args) :: itemCmds rest := by
   simp [itemCmds, h]
 
+@[simp] theorem sent_bypass (s : PState) (cmd : Bytes) (off : Int) : (sent s cmd off).bypass = s.bypass := rfl
+@[simp] theorem sent_currentDB (s : PState) (cmd : Bytes) (off : Int) :
+    (sent s cmd off).currentDB = s.currentDB := rfl
+
 theorem parseAll_cons (c : PCfg) (s : PState) (r : Raw) (rest : List Raw) :
     parseAll c s (r :: rest) =
       match parseStep c s r with
@@ -92,14 +96,15 @@ theorem parser_refines_spec (c : PCfg) (raws : List Raw) (s : PState) (cur : Int
       cases hf : c.filterCmdKey bPing r.args with
       | none => exact ih s cur hinv hsel'
       | some a =>
-        cases hbp : s.bypass with
-        | true =>
-          simp only [hbp, ↓reduceIte]
+        by_cases hbp : s.bypass = true
+        · simp only [hbp, ↓reduceIte]
           have := ih s cur hinv hsel'; rw [hbp] at this; exact this
-        | false =>
-          simp only [hbp, Bool.false_eq_true, ↓reduceIte]
+        · simp only [hbp, Bool.false_eq_true, ↓reduceIte]
           rw [itemCmds_cons_bracket _ _ (by simpa using hb)]
-          have := ih s cur hinv hsel'; rw [hbp] at this; exact this
+          have := ih (sent s bPing r.off) cur (by rw [sent_currentDB]; exact hinv) hsel'
+          rw [sent_bypass] at this
+          have hb' : s.bypass = false := by simpa using hbp
+          rw [hb'] at this; exact this
     · by_cases hs : r.cmd = bSelect
       · have hne : bSelect ≠ bPing := by decide
         unfold parseStep
@@ -138,7 +143,7 @@ theorem parser_refines_spec (c : PCfg) (raws : List Raw) (s : PState) (cur : Int
                       · rw [h] at hch; exact absurd hch hm1
                     simp only [selectDB, hn1, ↓reduceIte, hch, ne_eq, not_true_eq_false, decide_false,
                       Bool.false_eq_true]
-                    have := ih { currentDB := s.currentDB, bypass := false } cur (Or.inl hcur) hsel'
+                    have := ih { s with bypass := false } cur (Or.inl hcur) hsel'
                     rw [hcur] at this ⊢; exact this
                   · simp only [selectDB, hn1, ↓reduceIte, ne_eq, hch, not_false_eq_true, decide_true]
                     have hnb : itemCmds.isBracketOrPingB bSelect = false := by decide
@@ -147,7 +152,8 @@ theorem parser_refines_spec (c : PCfg) (raws : List Raw) (s : PState) (cur : Int
                     have hsa : selArg cur [intToDec (mapDb c n)] = mapDb c n := by
                       simp [selArg, atoi?_intToDec]
                     rw [hsa]
-                    exact ih { currentDB := mapDb c n, bypass := false } (mapDb c n) (Or.inl rfl) hsel'
+                    exact ih { s with bypass := false, currentDB := mapDb c n, lastSent := r.off }
+                      (mapDb c n) (Or.inl rfl) hsel'
       · -- ordinary command (including MULTI / EXEC)
         rw [parseStep_data c s r hp hs]
         simp only [hp, hs, ↓reduceIte]
@@ -160,39 +166,44 @@ theorem parser_refines_spec (c : PCfg) (raws : List Raw) (s : PState) (cur : Int
             exact ih s cur hinv hsel'
           · simp only [hsen, ↓reduceIte]
             by_cases hbr : r.cmd = bMulti ∨ r.cmd = bExec
-            · -- a bracket: emitted or not, the sender absorbs it
+            · -- a bracket: handed over or not, the sender absorbs it
               have hb : itemCmds.isBracketOrPingB r.cmd = true := by
                 rcases hbr with h | h <;> rw [h] <;> decide
-              have hnb : ¬ (s.bypass = true ∧ r.cmd ≠ bMulti ∧ r.cmd ≠ bExec) := by
-                intro h; rcases hbr with h1 | h1
-                · exact h.2.1 h1
-                · exact h.2.2 h1
-              simp only [hbr, hnb, ↓reduceIte]
-              cases hf : c.filterCmdKey r.cmd r.args with
-              | none => exact ih s cur hinv hsel'
-              | some a =>
-                simp only
-                rw [itemCmds_cons_bracket _ _ hb]; exact ih s cur hinv hsel'
+              simp only [hbr, ↓reduceIte]
+              by_cases h3 : s.bypass = true ∧ closesTxn s r.cmd = false
+              · simp only [h3, and_self, ↓reduceIte]
+                have := ih s cur hinv hsel'
+                rw [h3.1] at this; exact this
+              · simp only [h3, ↓reduceIte]
+                cases hf : c.filterCmdKey r.cmd r.args with
+                | none => exact ih s cur hinv hsel'
+                | some a =>
+                  simp only
+                  rw [itemCmds_cons_bracket _ _ hb]
+                  have := ih (sent s r.cmd (if closesTxn s r.cmd = true then s.lastSent else r.off)) cur
+                    (by rw [sent_currentDB]; exact hinv) hsel'
+                  rw [sent_bypass] at this
+                  exact this
             · have hb : itemCmds.isBracketOrPingB r.cmd = false := by
                 simp only [itemCmds.isBracketOrPingB, Bool.or_eq_false_iff, beq_eq_false_iff_ne, ne_eq]
                 exact ⟨⟨hp, fun h => hbr (Or.inl h)⟩, fun h => hbr (Or.inr h)⟩
-              simp only [hbr, ↓reduceIte]
-              cases hbp : s.bypass with
-              | true =>
-                have h1 : r.cmd ≠ bMulti := fun h => hbr (Or.inl h)
-                have h2 : r.cmd ≠ bExec := fun h => hbr (Or.inr h)
-                simp only [h1, h2, ne_eq, not_false_eq_true, and_self, ↓reduceIte]
+              have hne : r.cmd ≠ bExec := fun h => hbr (Or.inr h)
+              have hct : closesTxn s r.cmd = false := by simp [closesTxn, hne]
+              simp only [hbr, ↓reduceIte, hct, and_true, Bool.false_eq_true]
+              by_cases hbp : s.bypass = true
+              · simp only [hbp, ↓reduceIte]
                 have := ih s cur hinv hsel'; rw [hbp] at this; exact this
-              | false =>
-                simp only [Bool.false_eq_true, false_and, ↓reduceIte]
+              · simp only [hbp, Bool.false_eq_true, ↓reduceIte]
+                have hb' : s.bypass = false := by simpa using hbp
                 cases hf : c.filterCmdKey r.cmd r.args with
-                | none => have := ih s cur hinv hsel'; rw [hbp] at this; exact this
+                | none => have := ih s cur hinv hsel'; rw [hb'] at this; exact this
                 | some a =>
                   simp only
                   rw [itemCmds_cons_data _ _ hb]
                   have hns : r.cmd ≠ bSelect := hs
                   simp only [seqApplied, hns, ↓reduceIte]
-                  have := ih s cur hinv hsel'; rw [hbp] at this
+                  have := ih (sent s r.cmd r.off) cur (by rw [sent_currentDB]; exact hinv) hsel'
+                  rw [sent_bypass, hb'] at this
                   rw [this]
 
 end GunYu.Sender
